@@ -374,6 +374,9 @@ SPL_OPEN = '/*@+*/'
 SPL_CLOSE = '/*@-*/'
 
 
+PROBE = False   # reachability probe (thorough tier): `assert(false)` at the start of every function under contract -- each MUST fail
+
+
 def splice(s):
     return SPL_OPEN + s + SPL_CLOSE
 
@@ -495,6 +498,8 @@ def transform_fn(it: rs.Item, qual: str, ov: Overlay, log, used):
     if ps:
         used.add(('proof_start', qual, None))
         inserts.append((1, splice(' proof {\n' + ps['text'] + '\n} ')))
+    if PROBE and con and qual not in ov.stubs and 'external_body' not in ov.attrs.get(qual, ''):
+        inserts.append((1, splice(' proof { assert(false); } /*PROBE %s*/ ' % qual)))
     pe = ov.proofs.get(('proof_end', qual, None))
     if pe:
         used.add(('proof_end', qual, None))
